@@ -4,4 +4,4 @@ CONSTANTS
   Protocols = {"p", "q"}
   Wire = FALSE
   Budget = 1
-INVARIANTS TypeOK CompleteIff Agreement InitiatorSound ResponderSound ProtocolMismatchFails
+INVARIANTS TypeOK CompleteIff Agreement InitiatorSound ResponderSound ProtocolMismatchFails NoTouchedWordAccepted
